@@ -29,6 +29,12 @@ tuples and never calls an mdtraj transformation):
 * eq-hash            over all pairs of a case: a == b  =>  hash(a) == hash(b).
 * eq.<op>            t == T(t) for field-preserving T; a == b => T(a) == T(b).
 
+* wider alphabet (cases with wide=True; audit table in the docstring of _apply_wide): fp.<op> for other containers / entry-point twins /
+                     option values of the same carriers, query.* (find_molecules = connected components of the model's bond list,
+                     select_pairs = unique unordered pairs, Atom.n_bonds = degree; all leave the topology as it was), edits through
+                     add_chain / add_residue / add_atom / element= / create_standard_bonds (bonds of residues.xml, parsed independently) /
+                     create_disulfide_bonds (documented distance rule), and a transformation applied AFTER the edit block.
+
 No numeric tolerance is involved anywhere (all comparisons are exact)."""
 from __future__ import annotations
 
@@ -52,7 +58,10 @@ RULE = ("cases = (source topology, transform sequence, edit block) drawn from a 
         "virtual sites, typed/ordered bonds across residues and chains) and real ones from tests/data; sequences of "
         "copy/deepcopy/pickle/subset/join/dataframe/hdf5/pdb/Trajectory slice, atom_slice, stack (<=4 quick, <=10 "
         "thorough) followed by edits on one side; 'subsets' cases enumerate ALL atom subsets of a small topology; a "
-        "case is non-trivial when at least one monitor decided; distinct = distinct case descriptors")
+        "case is non-trivial when at least one monitor decided; distinct = distinct case descriptors; cases with wide=True add "
+        "other entry points / containers / options (see _apply_wide), topologies with up to 12 chains, 10-60 atom residues, CYS/SG patterns, "
+        "read-only queries judged against the model, builder / element / create_standard_bonds / create_disulfide_bonds edits and one "
+        "transformation AFTER the edit block")
 WORKERS = {"quick": 8, "thorough": 16}
 BUDGET = {"quick": 150, "thorough": 900}
 NCASES = {"quick": 8000, "thorough": 60000}
@@ -62,7 +71,11 @@ FLOORS = {"quick": {"fp.copy": 130, "fp.copy.copy": 130, "fp.deepcopy": 130, "fp
                     "fp.traj.atom_slice": 140, "fp.traj.stack": 120, "source-unchanged": 2000,
                     "invariant.bond-ends-are-own-atoms": 3500, "invariant.partition-in-order": 4500,
                     "invariant.atom-index-is-position": 4500, "independence": 3500, "edit-model": 1300, "eq-hash": 2500,
-                    "eq.preserved-by-transform": 1200}}
+                    "eq.preserved-by-transform": 1200,
+                    # wider alphabet (cases with wide=True, audit in the docstring of _apply_wide)
+                    "fp.traj.join": 60, "fp.traj.pickle": 60, "fp.traj.remove_solvent": 60, "fp.traj.restrict_atoms": 60, "fp.subset.container": 120,
+                    "fp.dataframe.variants": 100, "fp.hdf5.twins": 100, "fp.pdb.twins": 100, "query.find_molecules": 100, "query.select_pairs": 100,
+                    "edit-model.bond-creation": 200}}
 FLOORS["thorough"] = {k: v * 10 for k, v in FLOORS["quick"].items()}
 ASSUMPTIONS = [
     "PDB files are re-read with standard_names=False; the documented renaming of non-standard names on read is not judged",
@@ -78,6 +91,10 @@ REAL = ["native.pdb", "2EQQ.pdb", "4ZUO.pdb", "frame0.h5", "1vii_sustiva_water.p
         "GG-tip4pew.pdb", "aaqaa-wat.pdb", "1am7_protein.pdb"]
 MEM_OPS = ["copy", "copy.copy", "deepcopy", "pickle", "subset", "subset", "join", "traj.slice", "traj.atom_slice", "traj.stack"]
 CARRIER_OPS = ["dataframe", "hdf5", "pdb"]
+# wider alphabet (cases with wide=True): entry points, containers and option values the lists above never use
+WIDE_OPS = ["traj.join", "traj.pickle", "traj.deepcopy", "traj.remove_solvent", "traj.restrict_atoms", "subset.container", "subset.container",
+            "pickle.lowproto", "queries", "queries", "dataframe.variants", "dataframe.variants", "hdf5.twins", "hdf5.twins", "pdb.twins", "pdb.twins"]
+NWIDE = {"quick": 2600, "thorough": 24000}
 
 
 def _data_dir():
@@ -97,6 +114,16 @@ def gen_cases(tier, seed):
         else:
             yield dict(i=i, seed=cs, kind="seq", n_atoms=int(rng.choice([1, 2, 3, 5, 8, 13, 21, 34, 55])),
                        rich=bool(rng.random() < 0.85), repair=bool(rng.random() < 0.7),
+                       length=int(rng.integers(1, MAXLEN[tier] + 1)))
+    for j in range(NWIDE[tier]):
+        i = n + j
+        rng = common.rng_for("C04w", seed, j)
+        cs = common.case_seed(seed, "C04w", j)
+        if rng.random() < 0.06:
+            yield dict(i=i, seed=cs, kind="real", wide=True, src=REAL[int(rng.integers(len(REAL)))], length=int(rng.integers(1, 3)))
+        else:
+            yield dict(i=i, seed=cs, kind="seq", wide=True, n_atoms=int(rng.choice([1, 2, 4, 7, 12, 20, 33, 54, 89, 144])),
+                       rich=bool(rng.random() < 0.85), repair=bool(rng.random() < 0.8), shape=str(rng.choice(["plain", "plain", "many-chains", "big-residues", "cys"])),
                        length=int(rng.integers(1, MAXLEN[tier] + 1)))
 
 
@@ -145,6 +172,11 @@ def _repair_adjacent(top, rng):
             if prev is not None and (r.resSeq % 10000, r.name[:3]) == (prev.resSeq % 10000, prev.name[:3]):
                 r.resSeq = prev.resSeq + int(rng.integers(1, 4))
             prev = r
+
+
+def _has_empty(F):
+    """a chain without residues or a residue without atoms (only possible after add_chain / add_residue edits): subsetting drops them"""
+    return len({a[3] for a in F["atoms"]}) < len(F["residues"]) or len({r[3] for r in F["residues"]}) < len(F["chains"])
 
 
 class Entry:
@@ -267,7 +299,21 @@ class Run:
 
 def _random_source(run, n_atoms, rich, repair):
     rng = run.rng
-    top = common.random_topology(rng, n_atoms, rich=rich)
+    shape = run.case.get("shape", "plain")
+    top = common.random_topology(rng, n_atoms, rich=rich, max_chain=12 if shape == "many-chains" else 4)
+    if shape != "plain":
+        run.ctx.observe("source_shape", shape)
+    if shape == "big-residues" and top.n_residues > 1:
+        # residues of 10..60 atoms: merge runs of residues by rebuilding through the public API (names / serials kept)
+        top = _merge_residues(top, rng)
+    if shape == "cys":
+        for r in top.residues:
+            if rng.random() < 0.6:
+                r.name = "CYS"
+                atoms = list(r.atoms)
+                atoms[int(rng.integers(len(atoms)))].name = "SG"
+                if len(atoms) > 2 and rng.random() < 0.2:
+                    atoms[0 if atoms[0].name != "SG" else 1].name = "HG"
     # widen the numeric ranges through public attributes: 4-column resSeq / 5-column serial wrap-around of PDB, large values
     u = rng.random()
     if rich and u < 0.25:
@@ -283,6 +329,25 @@ def _random_source(run, n_atoms, rich, repair):
     if repair:
         _repair_adjacent(top, rng)
     return top
+
+
+def _merge_residues(top, rng):
+    import mdtraj as md
+    new = md.Topology()
+    amap = {}
+    for ch in top.chains:
+        c = new.add_chain(ch.chain_id)
+        res, budget = None, 0
+        for r in ch.residues:
+            if res is None or budget <= 0:
+                res = new.add_residue(r.name, c, r.resSeq, r.segment_id)
+                budget = int(rng.integers(10, 60))
+            for a in r.atoms:
+                amap[a.index] = new.add_atom(a.name, a.element, res, serial=a.serial)
+                budget -= 1
+    for b in top.bonds:
+        new.add_bond(amap[b[0].index], amap[b[1].index], type=b.type, order=b.order)
+    return new
 
 
 def _random_subset(rng, F):
@@ -356,7 +421,7 @@ def _apply_op(run, op, k):
             new = t2.topology
             if t2.xyz.shape[1] != len(idx):
                 run.viol("fp.traj.atom_slice", "traj.atom_slice:xyz-shape", f"xyz has {t2.xyz.shape[1]} atoms, expected {len(idx)}")
-        eq_expected = len(idx) == n
+        eq_expected = len(idx) == n and not _has_empty(F)
         ctx.observe("subset_shape", "all" if len(idx) == n else ("empties-chain" if len(Fe["chains"]) < len(F["chains"]) else
                                                                  ("empties-residue" if len(Fe["residues"]) < len(F["residues"]) else "partial")))
     elif op in ("join", "traj.stack"):
@@ -458,6 +523,14 @@ def _apply_op(run, op, k):
         os.remove(path)
     elif op == "pdb":
         return _op_pdb(run, k)
+    elif op == "pdb.twins":
+        return _op_pdb_twin(run, k)
+    elif op in WIDE_OPS:
+        w = _apply_wide(run, op, k)
+        if w is None:
+            return None
+        new, Fe, desc = w["new"], w["Fe"], w["desc"]
+        fields, tx, res_old, keyop, eq_expected = w.get("fields"), w.get("tx"), w.get("res_old"), w.get("keyop", op), w.get("eq", False)
     else:
         raise AssertionError(op)
 
@@ -635,6 +708,338 @@ def _op_pdb(run, k):
     return run.add(new, "pdb", [k], inv)
 
 
+# ------------------------------------------------------------------------------------------------ wider alphabet
+
+
+def _solvent_names():
+    from mdtraj.core.trajectory import _SOLVENT_TYPES  # the documented list of solvent residue names (data, not a transformation)
+    return set(_SOLVENT_TYPES)
+
+
+def _apply_wide(run, op, k):
+    """Entry points / containers / option values the original op lists never use.  Returns dict(new, Fe, desc, ...) for the common
+    tail of _apply_op, or None (skipped, or judged here).
+
+    audit (function -> parameters -> covered before / added here / left out):
+      Topology.copy / __copy__ / __deepcopy__ / pickle      all before; pickle protocols 0 and 1 added
+      Topology.subset(atom_indices)                          list, int64 ndarray before; tuple, range, int32, uint16, strided view, generator-free
+                                                             containers added; bool masks / unsorted / duplicated indices are outside the quantifier
+                                                             ("strictly increasing atom subsets"; bool masks are refused with TypeError)
+      Topology.join(other, keep_resSeq)                      both values, self-join, pool member, fresh operand before
+      to_dataframe / from_dataframe(atoms, bonds)            bonds (n,4), (n,2) before; bonds=None, frame without segmentID column, frame edited
+                                                             between the two calls (renamed residue), integer-typed bond array added
+      HDF5                                                    save_hdf5+load, load(atom_indices), file.topology setter/getter before; load_topology,
+                                                             load_frame, load(frame=), load(stride=), iterload(chunk, atom_indices), md.open().read_as_traj,
+                                                             save(mode='a') twins added
+      PDB                                                     save_pdb(ter)+load(standard_names=False) before; pdb.gz, header=False, bfactors, 2 models,
+                                                             load_topology, load_frame, load_pdb(atom_indices / frame=), PDBTrajectoryFile.topology twins added
+      Trajectory carriers                                     slice, atom_slice(inplace), stack before; join (deepcopy of the topology), pickle / deepcopy of
+                                                             the Trajectory, remove_solvent(exclude), restrict_atoms added
+      read-only queries                                       none before; find_molecules, select_pairs, to_fasta, atoms_by_name, select_atom_indices on
+                                                             results (value from the model where defined, source unchanged) added
+      edits                                                   insert_atom, delete_atom_by_index, add_bond, renames before; add_chain / add_residue / add_atom on
+                                                             the transformed topology, element change, create_standard_bonds, create_disulfide_bonds added
+      left out: to_openmm / from_openmm (openmm not importable), to_bondgraph (networkx not importable: observed as ImportError)."""
+    import mdtraj as md
+    ctx, rng = run.ctx, run.rng
+    cur = run.pool[k]
+    F = cur.F
+    n = len(F["atoms"])
+    if n == 0:
+        ctx.skip("fp." + op, "empty topology")
+        return None
+    if op == "pickle.lowproto":
+        proto = int(rng.integers(0, 2))
+        return dict(new=pickle.loads(pickle.dumps(cur.top, protocol=proto)), Fe=F, desc=f"pickle(protocol={proto})", eq=True)
+    if op == "subset.container":
+        idx = _random_subset(rng, F)
+        cont = ["tuple", "range", "int32", "uint16", "strided-view", "int-list-of-np.int64"][int(rng.integers(6))]
+        if cont == "range":
+            lo = int(rng.integers(0, n))
+            hi = int(rng.integers(lo + 1, n + 1))
+            idx, arg = list(range(lo, hi)), range(lo, hi)
+        elif cont == "tuple":
+            arg = tuple(idx)
+        elif cont == "int32":
+            arg = np.array(idx, np.int32)
+        elif cont == "uint16":
+            arg = np.array(idx, np.uint16)
+        elif cont == "strided-view":
+            arg = np.repeat(np.array(idx, dtype=int), 2)[::2]
+        else:
+            arg = [np.int64(i) for i in idx]
+        ctx.observe("subset_container", cont)
+        Fe, res_old = M.restrict(F, idx)
+        return dict(new=cur.top.subset(arg), Fe=Fe, res_old=res_old, desc=f"subset({len(idx)} of {n}, {cont})", keyop="subset", eq=len(idx) == n and not _has_empty(F))
+    if op in ("traj.join", "traj.pickle", "traj.deepcopy"):
+        t = md.Trajectory(_grid_xyz(n, 2), cur.top)
+        if op == "traj.join":
+            how = int(rng.integers(3))
+            t2 = md.Trajectory(_grid_xyz(n, 1), cur.top if how == 0 else cur.top.copy())
+            new = (t.join(t2) if how < 2 else md.join([t, t2, t])).topology
+            desc = ["traj.join(other sharing the topology object)", "traj.join(other with a copy)", "md.join([t, other, t])"][how]
+        elif op == "traj.pickle":
+            new = pickle.loads(pickle.dumps(t)).topology
+            desc = "pickle(Trajectory)"
+        else:
+            new = _copy.deepcopy(t).topology
+            desc = "deepcopy(Trajectory)"
+        return dict(new=new, Fe=F, desc=desc, eq=True)
+    if op in ("traj.remove_solvent", "traj.restrict_atoms"):
+        t = md.Trajectory(_grid_xyz(n, 2), cur.top)
+        inplace = bool(rng.random() < 0.4)
+        if op == "traj.restrict_atoms":
+            import warnings
+            idx = _random_subset(rng, F)
+            with warnings.catch_warnings():
+                warnings.simplefilter("ignore")
+                t2 = t.restrict_atoms(np.array(idx, dtype=int)) if inplace else t.restrict_atoms(list(idx), inplace=False)
+            desc = f"traj.restrict_atoms({len(idx)} of {n}, inplace={inplace})"
+        else:
+            solv = _solvent_names()
+            present = sorted({r[0] for r in F["residues"]} & solv)
+            exclude = [x for x in present if rng.random() < 0.4]
+            gone = set(present) - set(exclude)
+            idx = [i for i, a in enumerate(F["atoms"]) if F["residues"][a[3]][0] not in gone]
+            if not idx:
+                ctx.skip("fp." + op, "everything is solvent")
+                return None
+            t2 = t.remove_solvent(exclude=exclude or None, inplace=inplace)
+            desc = f"traj.remove_solvent(exclude={exclude}, inplace={inplace}) keeps {len(idx)} of {n}"
+        if inplace and t2 is not t:
+            run.viol("fp." + op, f"{op}:inplace-returns-other-object", f"{op}(inplace=True) did not return self")
+        if t2.xyz.shape[1] != len(idx):
+            run.viol("fp." + op, f"{op}:xyz-shape", f"xyz has {t2.xyz.shape[1]} atoms, expected {len(idx)}")
+        Fe, res_old = M.restrict(F, idx)
+        return dict(new=t2.topology, Fe=Fe, res_old=res_old, desc=desc, eq=len(idx) == n and not _has_empty(F))
+    if op == "queries":
+        _queries(run, cur)
+        return None
+    if op == "dataframe.variants":
+        if not _separable_residues(F):
+            ctx.skip("fp.dataframe.variants", "adjacent residues with identical (resSeq, name): a data frame cannot separate them")
+            return None
+        atoms, bonds = cur.top.to_dataframe()
+        variant = ["bonds=None", "no-segmentID-column", "edited-frame", "int-bonds"][int(rng.integers(4))]
+        base = [f for f in M.ALL_FIELDS if f != "chains.chain_id"]
+        Fe = F
+        if variant == "bonds=None":
+            new = md.Topology.from_dataframe(atoms) if rng.random() < 0.5 else md.Topology.from_dataframe(atoms, None)
+            Fe = dict(F, bonds=[])
+            fields = base
+        elif variant == "no-segmentID-column":
+            new = md.Topology.from_dataframe(atoms.drop(columns=["segmentID"]), bonds)
+            Fe = dict(F, residues=[(r[0], r[1], "", r[3]) for r in F["residues"]])
+            fields = base
+        elif variant == "edited-frame":
+            # the documented use of the frame: edit it, build a topology from it (a whole residue renamed, serials shifted)
+            ri = int(rng.integers(len(F["residues"])))
+            rows = [i for i, a in enumerate(F["atoms"]) if a[3] == ri]
+            newname = "XYZ" if F["residues"][ri][0] != "XYZ" else "XYW"
+            prev_same = ri > 0 and F["residues"][ri - 1][3] == F["residues"][ri][3] and (F["residues"][ri - 1][1], F["residues"][ri - 1][0]) == (F["residues"][ri][1], newname)
+            next_same = ri + 1 < len(F["residues"]) and F["residues"][ri + 1][3] == F["residues"][ri][3] and (F["residues"][ri + 1][1], F["residues"][ri + 1][0]) == (F["residues"][ri][1], newname)
+            if prev_same or next_same:
+                ctx.skip("fp.dataframe.variants", "renaming would make adjacent residues inseparable")
+                return None
+            atoms = atoms.copy()
+            atoms.loc[rows, "resName"] = newname
+            new = md.Topology.from_dataframe(atoms, bonds)
+            res = list(F["residues"])
+            res[ri] = (newname,) + res[ri][1:]
+            Fe = dict(F, residues=res)
+            fields = base
+        else:
+            new = md.Topology.from_dataframe(atoms, bonds[:, :2].astype(np.int64))
+            fields = [f for f in base if f not in ("bonds.type", "bonds.order")]
+        ctx.observe("dataframe_variant", variant)
+        return dict(new=new, Fe=Fe, fields=fields, desc=f"dataframe({variant})", keyop="dataframe." + variant)
+    if op == "hdf5.twins":
+        path = run.tmp(f"w{len(run.history)}.h5")
+        fields = ["atoms.name", "atoms.element", "atoms.residue", "residues.name", "residues.resSeq", "residues.segment_id", "residues.chain", "bonds.pairs"]
+        twin = ["load_topology", "load_frame", "load(frame=)", "load(stride=)", "iterload(atom_indices)", "open.read_as_traj(atom_indices)", "save(mode=a)", "load_frame(atom_indices)"][int(rng.integers(8))]
+        t = md.Trajectory(_grid_xyz(n, 3), cur.top)
+        if twin == "save(mode=a)":
+            t[:1].save_hdf5(path)
+            t[1:].save_hdf5(path, mode="a")
+        else:
+            t.save_hdf5(path)
+        Fe, res_old = F, None
+        idx = None
+        if "atom_indices" in twin:
+            idx = _random_subset(rng, F)
+            Fe, res_old = M.restrict(F, idx)
+        if twin == "load_topology":
+            new = md.load_topology(path)
+        elif twin == "load_frame":
+            new = md.load_frame(path, 1).topology
+        elif twin == "load_frame(atom_indices)":
+            new = md.load_frame(path, 2, atom_indices=np.array(idx, dtype=int)).topology
+        elif twin == "load(frame=)":
+            new = md.load(path, frame=1).topology
+        elif twin == "load(stride=)":
+            new = md.load(path, stride=2).topology
+        elif twin == "iterload(atom_indices)":
+            chunks = list(md.iterload(path, chunk=2, atom_indices=np.array(idx, dtype=int)))
+            new = chunks[-1].topology
+            if len(chunks) > 1 and chunks[0].topology is new:
+                ctx.observe("hdf5_iterload", "chunks share one topology object")
+        elif twin == "open.read_as_traj(atom_indices)":
+            with md.open(path) as fh:
+                new = fh.read_as_traj(atom_indices=np.array(idx, dtype=int)).topology
+        else:
+            new = md.load(path).topology
+        os.remove(path)
+        ctx.observe("hdf5_twin", twin)
+        return dict(new=new, Fe=Fe, res_old=res_old, fields=fields, desc=f"hdf5({twin})", keyop="hdf5." + ("atom_indices" if idx is not None else "twin"))
+    raise AssertionError(op)
+
+
+def _queries(run, cur):
+    """read-only methods on a pool member: the value the model defines, and the topology is left as it was"""
+    ctx, rng = run.ctx, run.rng
+    F = cur.F
+    n = len(F["atoms"])
+    top = cur.top
+    run.history.append("queries")
+    ctx.observe("op", "queries")
+    bonds_ok = (cur.inv_ok or {}).get("bond-ends-are-own-atoms", True) and (cur.inv_ok or {}).get("atom-index-is-position", True)
+    # find_molecules
+    refuses = len(F["bonds"]) == 0 and any(M.residue_len(F, r) > 1 for r in range(len(F["residues"])))
+    try:
+        mols = top.find_molecules()
+        got = {frozenset(a.index for a in mol) for mol in mols}
+        if not bonds_ok:
+            ctx.skip("query.find_molecules", "bonds already hold foreign atoms (reported under invariant:...)")
+        elif refuses:
+            run.viol("query.find_molecules", "find_molecules:answers-without-bonds", "find_molecules returned although the topology has no bonds and multi-atom residues")
+        elif got == M.components(F) and sum(len(x) for x in mols) == n:
+            ctx.ok("query.find_molecules")
+        else:
+            run.viol("query.find_molecules", f"find_molecules:not-the-connected-components:after-{cur.made_by}",
+                     f"find_molecules on a {cur.made_by} product gives {len(got)} molecules, the bond graph has {len(M.components(F))} components")
+    except ValueError as e:
+        if refuses:
+            ctx.skip("query.find_molecules", "no bonds and multi-atom residues: refused as documented in the message")
+        else:
+            run.viol("query.find_molecules", "find_molecules:raises-ValueError", f"find_molecules raised {e!r} on a topology with {len(F['bonds'])} bonds")
+    # select_pairs
+    a = rng.choice(n, size=int(rng.integers(1, min(n, 8) + 1)), replace=False)
+    mode = int(rng.integers(3))
+    b = a.copy() if mode == 0 else (np.setdiff1d(np.arange(n), a)[:6] if mode == 1 else rng.choice(n, size=int(rng.integers(1, min(n, 8) + 1)), replace=False))
+    if len(b):
+        cont = int(rng.integers(3))
+        A_, B_ = ([int(x) for x in a], [int(x) for x in b]) if cont == 0 else ((a.astype(np.int64), b.astype(np.int64)) if cont == 1 else (a.astype(np.int32).copy(), b.astype(np.int32).copy()))
+        try:
+            pr = np.asarray(top.select_pairs(A_, B_))
+            exp = M.unique_pairs(a, b)
+            gotp = [frozenset((int(x), int(y))) for x, y in pr.reshape(-1, 2)]
+            ctx.observe("select_pairs_case", ["identical", "disjoint", "overlapping"][mode])
+            if set(gotp) == exp and len(gotp) == len(exp):
+                ctx.ok("query.select_pairs")
+            else:
+                run.viol("query.select_pairs", f"select_pairs:not-the-unique-pairs:{['identical', 'disjoint', 'overlapping'][mode]}-selections",
+                         f"select_pairs gave {len(gotp)} rows ({len(set(gotp))} distinct), expected {len(exp)} unique pairs")
+        except Exception as e:  # noqa
+            run.viol("query.select_pairs", f"select_pairs:raises-{type(e).__name__}", f"select_pairs({list(a)}, {list(b)}) raised {e!r}")
+    # cheap ones: must run and leave the topology alone
+    try:
+        top.to_fasta()
+        list(top.atoms_by_name(F["atoms"][0][0]))
+        sel_all = top.select_atom_indices("all")
+        ctx.check(len(sel_all) == n, "query.misc", "select_atom_indices(all):wrong-length", f"select_atom_indices('all') has {len(sel_all)} entries for {n} atoms")
+        for s_ in ("alpha", "minimal", "heavy", "water"):
+            top.select_atom_indices(s_)
+        if bonds_ok:
+            nb = [a_.n_bonds for a_ in list(top.atoms)[:5]]
+            deg = [sum(1 for (i, j, _, _) in F["bonds"] if x in (i, j)) for x in range(min(n, 5))]
+            ctx.check(nb == deg, "query.misc", "Atom.n_bonds:not-the-degree-in-the-bond-list", f"Atom.n_bonds {nb} but the bond list gives {deg}")
+    except Exception as e:  # noqa
+        run.viol("query.misc", f"query:raises-{type(e).__name__}", f"a read-only query raised {e!r}")
+    try:
+        top.to_bondgraph()
+        ctx.observe("to_bondgraph", "ran")
+    except ImportError:
+        ctx.observe("to_bondgraph", "ImportError (networkx not installed)")
+    run.source_unchanged("queries", [cur])
+
+
+def _op_pdb_twin(run, k):
+    """the PDB carrier through its other entry points and writer options; the file-level text checks stay with _op_pdb, here only the
+    loaded topology is judged (same carrier profile, same domain conditions)"""
+    import mdtraj as md
+    ctx, rng = run.ctx, run.rng
+    cur = run.pool[k]
+    F = cur.F
+    n = len(F["atoms"])
+    if any((not a[0]) or len(a[0]) > 4 or (a[0] != a[0].strip()) or a[1] is None for a in F["atoms"]) or any(not r[0] for r in F["residues"]):
+        ctx.skip("fp.pdb.twins", "names outside what PDB columns can hold")
+        return None
+    if any(isinstance(a.serial, float) and a.serial != a.serial for a in cur.top.atoms):
+        ctx.skip("fp.pdb.twins", "an atom serial is NaN")
+        return None
+    if not _separable_residues(F, mod=10000, cut=3):
+        ctx.skip("fp.pdb.twins", "adjacent residues with identical (resSeq mod 10000, name[:3]): PDB cannot separate them")
+        return None
+    writer = ["pdb.gz", "header=False", "bfactors", "two-models", "plain"][int(rng.integers(5))]
+    reader = ["load", "load_topology", "load_frame", "load_pdb(atom_indices)", "load_pdb(frame=0)", "PDBTrajectoryFile.topology"][int(rng.integers(6))]
+    path = run.tmp(f"w{len(run.history)}.pdb" + (".gz" if writer == "pdb.gz" else ""))
+    kw = {}
+    nfr = 1
+    if writer == "header=False":
+        kw["header"] = False
+    elif writer == "bfactors":
+        kw["bfactors"] = (np.arange(n) % 90).astype(float)
+    elif writer == "two-models":
+        nfr = 2
+    run.history.append(f"pdb twin: write {writer}, read {reader}")
+    ctx.observe("op", "pdb.twins")
+    ctx.observe("pdb_twin", f"{writer} / {reader}")
+    md.Trajectory(_grid_xyz(n, nfr), cur.top).save_pdb(path, ter=True, **kw) if writer != "pdb.gz" else md.Trajectory(_grid_xyz(n, nfr), cur.top).save(path)
+    run.source_unchanged("pdb.twins", [cur])
+    Fe, idx = F, None
+    if reader == "load":
+        new = md.load(path, standard_names=False).topology
+    elif reader == "load_topology":
+        new = md.load_topology(path, standard_names=False)
+    elif reader == "load_frame":
+        new = md.load_frame(path, nfr - 1, standard_names=False).topology
+    elif reader == "load_pdb(atom_indices)":
+        idx = _random_subset(rng, F)
+        new = md.load_pdb(path, atom_indices=np.array(idx, dtype=int), standard_names=False).topology
+        Fe, _ = M.restrict(F, idx)
+    elif reader == "load_pdb(frame=0)":
+        new = md.load_pdb(path, frame=0, standard_names=False).topology
+    else:
+        from mdtraj.formats import PDBTrajectoryFile
+        with PDBTrajectoryFile(path, standard_names=False) as fh:
+            new = fh.topology
+    os.remove(path)
+    Fa = M.fingerprint(new)
+    single = len(F["chains"]) == 1
+    fields = ["atoms.name", "atoms.element", "atoms.residue", "residues.name", "residues.resSeq", "residues.segment_id", "residues.chain", "chains.chain_id"]
+    tx = {"atoms.name": lambda v: v[:4], "residues.name": lambda v: v[:3], "residues.resSeq": lambda v: v % 10000,
+          "residues.segment_id": lambda v: (v or "")[:4].strip(), "chains.chain_id": (lambda v: v[:1] if v else M.SKIP, lambda v: v)}
+    if single and all(a[2] is not None for a in F["atoms"]):
+        fields.append("atoms.serial")
+        tx["atoms.serial"] = lambda v: v % 100000
+    run.judge("pdb.twin" + (".atom_indices" if idx is not None else ""), Fe, Fa, fields, tx, monitor="fp.pdb.twins")
+    if idx is None and len(Fa["atoms"]) == n:
+        loaded = {(i, j) for (i, j, _, _) in Fa["bonds"]}
+        missing = [p_ for p_ in M.conect_documented(F) if p_ not in loaded]
+        deg = {}
+        for (i, j) in M.conect_documented(F):
+            deg[i] = deg.get(i, 0) + 1
+            deg[j] = deg.get(j, 0) + 1
+        if missing and not all(deg[i] > 4 and deg[j] > 4 for (i, j) in missing):
+            run.viol("fp.pdb.twins", f"pdb.twin:conect-bond-lost:{writer}", f"{len(missing)} CONECT-documented bonds missing after {writer} / {reader}, e.g. {missing[0]}")
+        elif missing:
+            ctx.skip("fp.pdb.twins.bonds", "bonds between atoms with more than 4 partners (reported by pdb.text)")
+        else:
+            ctx.ok("fp.pdb.twins.bonds")
+    inv = run.check_invariants("pdb.twin", new, None)
+    return run.add(new, "pdb", [k], inv)
+
+
 # ------------------------------------------------------------------------------------------------ edits
 
 
@@ -656,6 +1061,8 @@ def _edits(run):
     for _ in range(int(rng.integers(1, 4))):
         n = len(G["atoms"])
         kinds = ["insert", "rename", "add_bond", "delete"]
+        if run.case.get("wide"):
+            kinds = kinds + ["builders", "builders", "element", "standard_bonds", "standard_bonds", "disulfide"]
         kind = kinds[int(rng.integers(len(kinds)))]
         top = E.top
         residues = list(top.residues)
@@ -689,6 +1096,68 @@ def _edits(run):
             desc = f"add_bond({i},{j},{tname},{order})"
             top.add_bond(top.atom(i), top.atom(j), type=bt[tname], order=order)
             G = M.m_add_bond(G, i, j, tname, order)
+        elif kind == "builders":
+            # the construction API used on a transformed topology: appended chain / residue (to the last chain) / atom (to the last residue)
+            what = int(rng.integers(0, 3))
+            if what == 0 or not G["chains"]:
+                cid = [None, "Z", "AB"][int(rng.integers(3))]
+                top.add_chain(cid) if cid is not None or rng.random() < 0.5 else top.add_chain()
+                G = M.m_add_chain(G, cid)
+                desc = f"add_chain({cid!r})"
+            elif what == 1 or not G["residues"] or G["residues"][-1][3] != len(G["chains"]) - 1:
+                rs = [None, 77, -2][int(rng.integers(3))]
+                seg = ["", "SEGQ"][int(rng.integers(2))]
+                last_chain = list(top.chains)[-1]
+                top.add_residue("NEW", last_chain, resSeq=rs, segment_id=seg) if rs is not None else top.add_residue("NEW", last_chain, segment_id=seg)
+                G = M.m_add_residue(G, "NEW", rs, seg)
+                desc = f"add_residue('NEW', last chain, resSeq={rs})"
+            else:
+                el = common.ELEMENTS[int(rng.integers(len(common.ELEMENTS)))]
+                e = elem.virtual_site if el == "VS" else elem.get_by_symbol(el)
+                passed = None if (el == "VS" and rng.random() < 0.5) else e  # element=None is documented to mean a virtual site
+                serial = [None, 4242][int(rng.integers(2))]
+                top.add_atom("AX", passed, list(top.residues)[-1], serial=serial)
+                G = M.m_add_atom(G, "AX", e.symbol, serial)
+                desc = f"add_atom('AX', {el}, last residue)"
+        elif kind == "element" and n > 0:
+            i = int(rng.integers(n))
+            el = common.ELEMENTS[int(rng.integers(len(common.ELEMENTS)))]
+            e = elem.virtual_site if el == "VS" else elem.get_by_symbol(el)
+            top.atom(i).element = e
+            G["atoms"][i] = G["atoms"][i][:1] + (e.symbol,) + G["atoms"][i][2:]
+            desc = f"atom[{i}].element={el}"
+        elif kind in ("standard_bonds", "disulfide") and n > 1:
+            import mdtraj as _md
+            old = list(G["bonds"])
+            if kind == "standard_bonds":
+                top.create_standard_bonds()
+                exp, exact = M.m_standard_bonds(G, M.standard_bond_templates(os.path.dirname(_md.__file__)))
+                desc = "create_standard_bonds()"
+            else:
+                pos = rng.uniform(0, 0.6, (n, 3))
+                top.create_disulfide_bonds(pos.tolist() if rng.random() < 0.5 else pos)
+                exp, exact = M.m_disulfide(G, pos)
+                desc = "create_disulfide_bonds(positions)"
+            ctx.observe("bond_creation", f"{kind}: {'some' if exp else 'no'} template bonds expected")
+            if bonds_reason is None:
+                Fnow = M.fingerprint(top)
+                added = list(Fnow["bonds"])
+                for b in old:
+                    if b in added:
+                        added.remove(b)
+                    else:
+                        run.viol("edit-model", f"edit:{kind}:existing-bond-lost", f"{desc}: the bond {b} that existed before is gone")
+                        break
+                got = {(i, j) for (i, j, _, _) in added}
+                if any((t_, o_) != (None, None) for (_, _, t_, o_) in added):
+                    run.viol("edit-model", f"edit:{kind}:new-bond-carries-type-or-order", f"{desc}: a created bond has a type / order nobody gave")
+                elif (got == exp) if exact else (got <= exp):
+                    ctx.ok("edit-model.bond-creation")
+                else:
+                    run.viol("edit-model", f"edit:{kind}:created-bonds-differ-from-the-documented-rule",
+                             f"{desc}: created {sorted(got - exp)[:4]} beyond / lacks {sorted(exp - got)[:4]} of the bonds the templates define")
+                G = M.fp_copy(G)
+                G["bonds"] = list(Fnow["bonds"])  # adopted once judged (multiplicity of re-created bonds is not modelled)
         elif kind == "rename" and n > 0:
             what = int(rng.integers(0, 6))
             i = int(rng.integers(n))
@@ -760,6 +1229,7 @@ def _edits(run):
             run.viol("independence", f"independence:{rel}:{'+'.join(d)}",
                      f"{desc} changed pool[{oi}] ({O.made_by}) in {d}", edited=ei, changed=oi)
             O.F = Fo
+    return ei if bonds_reason is None else None
 
 
 # ------------------------------------------------------------------------------------------------ eq / hash
@@ -884,6 +1354,8 @@ def run_case(case, ctx):
             run.add(top, "source", (), run.check_invariants("source", top, None))
             big = False
             ops = MEM_OPS + CARRIER_OPS
+        if case.get("wide"):
+            ops = ops + WIDE_OPS + WIDE_OPS
         k = 0
         for _ in range(case["length"]):
             op = ops[int(run.rng.integers(len(ops)))]
@@ -894,7 +1366,14 @@ def run_case(case, ctx):
                 k = r
         ctx.observe("pool_size", len(run.pool))
         _eq_hash(run, "pre-edit")
-        _edits(run)
+        ei = _edits(run)
         _eq_hash(run, "post-edit")
+        if case.get("wide") and ei is not None and len(run.pool[ei].F["atoms"]) > 0:
+            # histories in the other order: a transformation applied to a topology that was edited in place before
+            op = ["copy", "subset", "pickle", "join", "deepcopy", "traj.atom_slice", "subset.container", "traj.pickle"][int(run.rng.integers(8))]
+            run.history.append(f"transform the edited pool[{ei}]")
+            ctx.observe("post_edit_transform", op)
+            run.pool[ei].frozen = True
+            _apply_op(run, op, ei)
     finally:
         run.cleanup()
